@@ -140,6 +140,81 @@ fn run(op: &str, a: &[&str]) -> String {
             format!("{} insub={} oncurve={} equals_map_plus_map={}", g2a(&pa), pa.in_subgroup(), pa.verif_is_on_curve(), p == q)
         }
         // ---- scalar multiplication (generator times k) through the different paths
+        // every scalar-multiplication path on one (point, scalar): `g1_mulpaths <x|inf> <y|-> k`, `g2_mulpaths <x.c0|inf> <x.c1> <y.c0> <y.c1> k`
+        "g1_mulpaths" => {
+            let p = if a[0] == "inf" { G1Affine::zero() } else { G1Affine::verif_from_raw(fq(a[0]), fq(a[1]), false) };
+            let k = fr_repr(a[2]);
+            let mut r1 = p.into_projective();
+            r1.mul_assign(k);
+            let r2 = p.mul(k);
+            let mut w = pairing_plus::Wnaf::new();
+            let r3 = w.base(p.into_projective(), 1).scalar(k);
+            let mut w2 = pairing_plus::Wnaf::new();
+            let r4 = w2.scalar(k).base(p.into_projective());
+            let mut pre3 = [G1Affine::zero(); 3];
+            p.precomp_3(&mut pre3);
+            let r5 = p.mul_precomp_3(k, &pre3);
+            let mut pre256 = vec![G1Affine::zero(); 256];
+            p.precomp_256(&mut pre256);
+            let r6 = p.mul_precomp_256(k, &pre256);
+            format!("plain={} | affine={} | wnaf_base_first={} | wnaf_scalar_first={} | precomp_3={} | precomp_256={}", g1a(&r1.into_affine()), g1a(&r2.into_affine()),
+                    g1a(&r3.into_affine()), g1a(&r4.into_affine()), g1a(&r5.into_affine()), g1a(&r6.into_affine()))
+        }
+        "g2_mulpaths" => {
+            let p = if a[0] == "inf" { G2Affine::zero() } else { G2Affine::verif_from_raw(fq2(&a[0..2]), fq2(&a[2..4]), false) };
+            let k = fr_repr(a[4]);
+            let mut r1 = p.into_projective();
+            r1.mul_assign(k);
+            let r2 = p.mul(k);
+            let mut w = pairing_plus::Wnaf::new();
+            let r3 = w.base(p.into_projective(), 1).scalar(k);
+            let mut w2 = pairing_plus::Wnaf::new();
+            let r4 = w2.scalar(k).base(p.into_projective());
+            let mut pre3 = [G2Affine::zero(); 3];
+            p.precomp_3(&mut pre3);
+            let r5 = p.mul_precomp_3(k, &pre3);
+            let mut pre256 = vec![G2Affine::zero(); 256];
+            p.precomp_256(&mut pre256);
+            let r6 = p.mul_precomp_256(k, &pre256);
+            format!("plain={} | affine={} | wnaf_base_first={} | wnaf_scalar_first={} | precomp_3={} | precomp_256={}", g2a(&r1.into_affine()), g2a(&r2.into_affine()),
+                    g2a(&r3.into_affine()), g2a(&r4.into_affine()), g2a(&r5.into_affine()), g2a(&r6.into_affine()))
+        }
+        // multi-scalar multiplication: `g1_msm <w<k>|default|p256> <npts> <nsc> (x y | inf -)*npts k*nsc`
+        "g1_msm" => {
+            let (np, ns) = (a[1].parse::<usize>().unwrap(), a[2].parse::<usize>().unwrap());
+            let mut pts = Vec::new();
+            for i in 0..np {
+                let (x, y) = (a[3 + 2 * i], a[4 + 2 * i]);
+                pts.push(if x == "inf" { G1Affine::zero() } else { G1Affine::verif_from_raw(fq(x), fq(y), false) });
+            }
+            let reprs: Vec<[u64; 4]> = (0..ns).map(|i| fr_repr(a[3 + 2 * np + i]).0).collect();
+            let scalars: Vec<&[u64; 4]> = reprs.iter().collect();
+            let r = if a[0] == "default" {
+                G1Affine::sum_of_products(&pts, &scalars)
+            } else if a[0] == "p256" {
+                let mut pre = vec![G1Affine::zero(); 256 * np];
+                for i in 0..np {
+                    pts[i].precomp_256(&mut pre[256 * i..256 * (i + 1)]);
+                }
+                G1Affine::sum_of_products_precomp_256(&pts, &scalars, &pre)
+            } else {
+                G1Affine::sum_of_products_pippinger(&pts, &scalars, a[0][1..].parse::<usize>().unwrap())
+            };
+            g1a(&r.into_affine())
+        }
+        "g1_window" => format!("{} {}", G1Affine::find_pippinger_window(a[0].parse::<usize>().unwrap()), G1Affine::find_pippinger_window_via_estimate(a[0].parse::<usize>().unwrap())),
+        // checked point decoders on raw bytes: `decode <g1c|g1u|g2c|g2u> <hex>` -> "ok <affine>" | "err <error>"
+        "decode" => {
+            use pairing_plus::bls12_381::{G1Compressed, G1Uncompressed, G2Compressed, G2Uncompressed};
+            use pairing_plus::EncodedPoint;
+            let bytes = unhex(a[1]);
+            match a[0] {
+                "g1c" => { let mut e = G1Compressed::empty(); e.as_mut().copy_from_slice(&bytes); match e.into_affine() { Ok(p) => format!("ok {}", g1a(&p)), Err(x) => format!("err {:?}", x) } }
+                "g1u" => { let mut e = G1Uncompressed::empty(); e.as_mut().copy_from_slice(&bytes); match e.into_affine() { Ok(p) => format!("ok {}", g1a(&p)), Err(x) => format!("err {:?}", x) } }
+                "g2c" => { let mut e = G2Compressed::empty(); e.as_mut().copy_from_slice(&bytes); match e.into_affine() { Ok(p) => format!("ok {}", g2a(&p)), Err(x) => format!("err {:?}", x) } }
+                _ => { let mut e = G2Uncompressed::empty(); e.as_mut().copy_from_slice(&bytes); match e.into_affine() { Ok(p) => format!("ok {}", g2a(&p)), Err(x) => format!("err {:?}", x) } }
+            }
+        }
         "g1_mul" => { let mut p = G1::one(); p.mul_assign(fr_repr(a[0])); g1a(&p.into_affine()) }
         "g2_mul" => { let mut p = G2::one(); p.mul_assign(fr_repr(a[0])); g2a(&p.into_affine()) }
         // ---- full hash_to_curve / encode_to_curve (message and tag given as hex strings; "-" = empty)
